@@ -136,7 +136,7 @@ func c40bShutdown() {
 type c40bStats struct {
 	cached, cachedReplay, terminalDurable, finishFlushed, finishFailedAfterLoss, finishFailedNothingOpen atomic.Int64
 	losses, lossesWithOpenContent, pressureRefused, pressureEvictedTerminal, finishAfterPartialLoss     atomic.Int64
-	closeAfterLoss, mergedClose, flushedLanes, appendAfterTerminal                                       atomic.Int64
+	closeAfterLoss, mergedClose, flushedLanes, appendAfterTerminal, ownRefused                           atomic.Int64
 }
 
 type c40bRow struct {
@@ -381,7 +381,13 @@ func (in *c40bInst) evCached(op, lane string, before map[string]c40bRow) (string
 		req = in.request(metadb.EventTypeStreamDelta, lane, l.LastID, fmt.Sprintf(`{"kind":"text","delta":%q}`, lane[:1]))
 		replay = true
 	}
+	hadSession := len(in.cacheView()) > 0
 	res, err := in.node.AppendMessageEvent(c40bCtx, req)
+	if errors.Is(err, ErrBackpressured) && !hadSession && in.others >= c40bMaxSessions {
+		// the bounded cache is full of open sessions of other messages: the event is refused, not acknowledged
+		in.st.ownRefused.Add(1)
+		return fmt.Sprintf("%s:%s refused (backpressure)", op, lane), nil
+	}
 	if err != nil {
 		in.fail("%s:%s: %v", op, lane, err)
 		return "error", nil
@@ -418,12 +424,16 @@ func (in *c40bInst) evCached(op, lane string, before map[string]c40bRow) (string
 		in.st.cachedReplay.Add(1)
 	}
 	got := c40bTextOf(res.State.SnapshotPayload)
-	if got != l.CText {
-		fp := "C40:cached-projection-differs-from-acknowledged-events"
-		if replay {
-			fp = "C40:cached-replayed-event-id-applied-again"
+	if replay {
+		// a resent id is answered with the result recorded when it was first applied; what must
+		// not happen is a second application to the cached lane
+		if now := in.cacheView()[lane]; now != l.CText {
+			return op, mc.Violatef("C40:cached-replayed-event-id-applied-again", "%s:%s (id %s): the cached lane now holds %q, the acknowledged events give %q", op, lane, req.EventID, now, l.CText)
 		}
-		return op, mc.Violatef(fp, "%s:%s (id %s): the cache answers text %q, the acknowledged events give %q", op, lane, req.EventID, got, l.CText)
+		return fmt.Sprintf("%s:%s resent id answered text=%q, lane unchanged", op, lane, got), nil
+	}
+	if got != l.CText {
+		return op, mc.Violatef("C40:cached-projection-differs-from-acknowledged-events", "%s:%s (id %s): the cache answers text %q, the acknowledged events give %q", op, lane, req.EventID, got, l.CText)
 	}
 	return fmt.Sprintf("%s:%s cached text=%q", op, lane, got), nil
 }
@@ -526,6 +536,11 @@ func (in *c40bInst) evFinish(before map[string]c40bRow) (string, error) {
 	if !ok || fin.Status != metadb.EventStatusClosed {
 		return "finish", mc.Violatef("C40:finish-succeeded-without-finish-lane", "finish succeeded but the durable finish lane is %+v", fin)
 	}
+	for k, prev := range before {
+		if prev.Status != metadb.EventStatusOpen && after[k] != prev {
+			return "finish", mc.Violatef("C40:terminal-lane-changed", "finish changed lane %s after it was finalised: %s -> %s", k, c40bRowsStr(before), c40bRowsStr(after))
+		}
+	}
 	flushed := 0
 	for name, l := range in.lanes {
 		if !l.Cached || l.Terminal {
@@ -541,8 +556,8 @@ func (in *c40bInst) evFinish(before map[string]c40bRow) (string, error) {
 		}
 		flushed++
 	}
-	if c40bMaxSeq(after) <= c40bMaxSeq(before) {
-		return "finish", mc.Violatef("C40:sequence-not-strictly-increasing", "finish succeeded but the maximum sequence went %d -> %d", c40bMaxSeq(before), c40bMaxSeq(after))
+	if !c40bRowsEq(before, after) && c40bMaxSeq(after) <= c40bMaxSeq(before) {
+		return "finish", mc.Violatef("C40:sequence-not-strictly-increasing", "finish changed the projection but the maximum sequence went %d -> %d", c40bMaxSeq(before), c40bMaxSeq(after))
 	}
 	if v := in.cacheView(); len(v) != 0 {
 		return "finish", mc.Violatef("C40:cache-kept-after-finish", "finish succeeded but the cache still holds %v", v)
@@ -553,7 +568,6 @@ func (in *c40bInst) evFinish(before map[string]c40bRow) (string, error) {
 		}
 		l.Cached, l.CText, l.HasAcked, l.LastID = false, "", false, ""
 	}
-	in.others = 0
 	in.finished = true
 	in.st.finishFlushed.Add(1)
 	in.st.flushedLanes.Add(int64(flushed))
@@ -682,6 +696,7 @@ func TestVerifC40Cache(t *testing.T) {
 	r.Count("finish_succeeded_after_loss_then_new_deltas", st.finishAfterPartialLoss.Load())
 	r.Count("terminal_event_after_cache_loss", st.closeAfterLoss.Load())
 	r.Count("cache_only_event_on_lane_terminal_in_cache", st.appendAfterTerminal.Load())
+	r.Count("own_event_refused_by_backpressure", st.ownRefused.Load())
 	r.Guard("cache-state-space-nontrivial", res.States >= 300, "states=%d", res.States)
 	r.Assume("fail-closed is demanded for a finish whose payload carries no snapshot when acknowledged cache-only events were dropped by a cache loss and nothing is cached for the message at finish time; a finish after loss + NEW cache-only events flushes only what the cache holds (the leader cannot know about the dropped prefix) - counted, not flagged")
 	r.Assume("the finish coalescer (time window) is not part of the assembled node; finish proposals go through appendMessageEventFinishPreparedDirect")
